@@ -233,7 +233,7 @@ void h_iter(void) {
 }
 void h_hash_cmp(void) {
   arbitrary_array();
-  uint64_t h = 0; for (int j = 0; j < N; j++) h ^= __CPROVER_uninterpreted_cvH(in_v[j]);
+  uint64_t h = 0; for (int j = 0; j < N; j++) h ^= cv_hash_of(in_v[j]);
   ASSERT(Array_Hash(a) == h, "[C10] the hash of an Array is the XOR of its elements' hashes (order-independent, a function of the contents)");
   int want = 0;
   for (int j = 0; j < N || j < M; j++) {
